@@ -22,6 +22,7 @@ var (
 	ordLog    []string // "P<app>" provisioning of an app begins, "S<app>" its Start begins
 	curOp     int      // number of the current operation = context number of what it creates
 	postFail  bool     // the config loader module fails to provision during this operation
+	adminFail bool     // the probe admin.api module fails to provision during this operation
 	caseNonce int      // makes pool / writer keys of different cases distinct
 	mpool     = caddy.NewUsagePool()
 )
@@ -321,6 +322,31 @@ func (l *ProbeLoader) Cleanup() error {
 
 func (l *ProbeLoader) LoadConfig(caddy.Context) ([]byte, error) { return nil, nil }
 
+// ---------------------------------------------------------------- admin.api module (admin routers)
+
+// ProbeAdminAPI is an admin router: with the admin endpoint enabled, newAdminHandler instantiates
+// every admin.api module and run() provisions them (provisionAdminRouters) after the apps were
+// provisioned and before any is started.
+type ProbeAdminAPI struct{}
+
+func (ProbeAdminAPI) CaddyModule() caddy.ModuleInfo {
+	return caddy.ModuleInfo{ID: "admin.api.verif_probe", New: func() caddy.Module { return new(ProbeAdminAPI) }}
+}
+
+func (ProbeAdminAPI) Routes() []caddy.AdminRoute {
+	return []caddy.AdminRoute{{Pattern: "/verif-probe/", Handler: caddy.AdminHandlerFunc(func(http.ResponseWriter, *http.Request) error { return nil })}}
+}
+
+func (*ProbeAdminAPI) Provision(caddy.Context) error {
+	mu.Lock()
+	fail := adminFail
+	mu.Unlock()
+	if fail {
+		return errors.New("probe admin router fault")
+	}
+	return nil
+}
+
 // ---------------------------------------------------------------- listener wrapper: tells when the HTTP app binds
 
 type ProbeWrapper struct{}
@@ -343,6 +369,7 @@ func init() {
 	caddy.RegisterModule(ProbeWriter{})
 	caddy.RegisterModule(ProbeLoader{})
 	caddy.RegisterModule(ProbeWrapper{})
+	caddy.RegisterModule(ProbeAdminAPI{})
 }
 
 var (
